@@ -2,6 +2,8 @@
 #[verifier::external_body] pub fn fmt_opaque_v() -> String { String::new() }
 
 pub struct IoError;
+pub enum IoErrorKind { UnexpectedEof, InvalidData, Other }
+impl IoError { #[verifier::external_body] pub fn new(kind: IoErrorKind, msg: &str) -> (r: IoError) { unimplemented!() } }
 pub struct EcdsaError;
 pub struct CurveError;
 pub struct FromHexError;
@@ -18,16 +20,7 @@ pub struct TryFromSliceError;
 pub assume_specification<T: Clone> [<[T]>::to_vec] (s: &[T]) -> (r: Vec<T>) ensures r@ == s@;
 pub assume_specification<T> [<[T]>::reverse] (s: &mut [T]) ensures final(s)@ == old(s)@.reverse();
 
-// vec![e; n] (macro M3).  alloc_budget() is an uninterpreted ghost bound: units that decide C09
-// (allocation bounded by input length) constrain it in their entry-point preconditions; other
-// units leave it unconstrained by including shims/alloc_free.rs.
-pub uninterp spec fn alloc_budget() -> nat;
-#[verifier::external_body]
-pub fn alloc_fill_v(e: u8, n: usize) -> (r: Vec<u8>)
-    requires n <= alloc_budget()
-    ensures r@.len() == n, forall|i: int| 0 <= i < n ==> r@[i] == e
-{ unimplemented!() }
-
+pub open spec fn filled(e: u8, n: nat) -> Seq<u8> { Seq::new(n, |i: int| e) }
 // ---- little/big endian integer <-> bytes (rule R1) ----
 pub open spec fn le16(x: u16) -> Seq<u8> { seq![ x as u8, (x>>8) as u8 ] }
 pub open spec fn le32(x: u32) -> Seq<u8> { seq![ x as u8, (x>>8) as u8, (x>>16) as u8, (x>>24) as u8 ] }
